@@ -6240,7 +6240,7 @@ bool SoPlexBase<R>::setIntParam(const IntParam param, const int value, const boo
          break;
 
       case SYNCMODE_AUTO:
-         if(intParam(param) == SYNCMODE_ONLYREAL)
+         if(_rationalLP == nullptr || intParam(param) == SYNCMODE_ONLYREAL)
             _syncLPRational();
 
          break;
